@@ -412,15 +412,18 @@ func (r *regWorld) apply(op regOp) string {
 		if msg := r.checkRegistry(); msg != "" {
 			return "after the rejected registration under lock: " + msg
 		}
-		// the rejected type is not registered: once unlocked it gets the next id
+		// the rejected type is not registered: once unlocked, the next registration (of another
+		// type, of a generated shape) gets the next id and its own relation flag
+		shape2 := int(op.Tok % 6)
+		tp, rel := shapeType(shape2, r.serial)
+		r.serial++
 		var id ecs.ID
 		if p := core.Call(func() { id = ecs.TypeID(r.w, tp) }); p != nil {
-			return fmt.Sprintf("registering the type again after unlocking panicked: %v", p)
+			return fmt.Sprintf("registering a type after a rejected registration panicked: %v", p)
 		}
 		if id != core.RawIDs()[nt] {
-			return fmt.Sprintf("type rejected under lock got id %v after unlocking, want %d", id, nt)
+			return fmt.Sprintf("the registration after a rejected one got id %v, want %d", id, nt)
 		}
-		_, rel := shapeType(op.Shape, 0)
 		r.types = append(r.types, tp)
 		r.isRel = append(r.isRel, rel)
 		r.ids = append(r.ids, id)
